@@ -36,6 +36,8 @@ def dispatch (j : Json) : R Json := do
   | "fmt.spec" => opFmtSpec j
   | "fmt.src" => opFmtSrc j
   | "fmt.cache" => opFmtCache j
+  | "fmt.table" => opFmtTable j
+  | "fmt.doc" => opFmtDoc j
   | _ => .error s!"unknown op {op}"
 
 def handle (line : String) : String :=
